@@ -50,6 +50,9 @@ structure Err where
 
 def errorf (_fmt : String) : Err := ⟨"error"⟩
 def errT (kind _fmt : String) : Err := ⟨kind⟩
+/-- `fmt.Errorf("..%w..", .., err)`: the new error wraps `err`, so `errors.Is` sees through it -
+the kind of the wrapped error is kept (a nil `err` gives a plain error) -/
+def wrapf (_fmt : String) (e : Option Err) : Err := e.getD ⟨"error"⟩
 
 /-- `errors.Is(err, target)` for sentinel / typed errors: same kind -/
 def errIs (e : Option Err) (target : Err) : Bool := e == some target
